@@ -1,4 +1,4 @@
-\* random catalogs with adversarial names
+\* random catalogs with adversarial names; every position of the source time relative to the local clock
 SPECIFICATION Spec
 CHECK_DEADLOCK FALSE
 INVARIANTS PlanOut
@@ -13,6 +13,8 @@ CONSTANTS
   PStates = {"creating", "created", "dropping", "dropped", "tombstone"}
   Concrete <- NamesClash
   Now = 100
+  Skews = {"behind", "equal", "window", "ahead", "far"}
+  ClampLocal = FALSE
   FixStaleDb = TRUE
   LiveDbGuard = TRUE
   SafeKeys = TRUE
